@@ -30,7 +30,20 @@ RULE = ("HistogramNew: random (min,max,nbins) incl. nbins=1, min<0, min>0, "
         "... and random scripts), shadow histogram compared after every "
         "step, non-trivial when a Clear or re-Initialize precedes a "
         "Normalize; legacy Histogram: second ProcessData on the same object "
-        "against a fresh object. A csg_density "
+        "against a fresh object. csg_boltzmann session family: the real "
+        "executable (--no-map, xml topology with bond/angle/dihedral groups, "
+        "generated .gro) is fed random command sequences: hist/tab set "
+        "n|min|max|periodic|auto|extend|normalize|scale (30% redundant "
+        "settings, auto 1->0->1 toggles, ranges cutting the data on one or "
+        "both sides, a motif 'auto 1 ... min/max ... auto 0' with extend "
+        "never touched), tab set T / smooth, each followed by both option "
+        "listings, interleaved with hist/tab outputs; oracle = python model "
+        "of the legacy Histogram for the options in force (range, half-step "
+        "acceptance, extend, end-point merge in periodic mode, scaling, "
+        "normalisation, Boltzmann inversion) on values the model computes "
+        "from the printed trajectory digits (cross-checked against `vals`); "
+        "an output is non-trivial when values are discarded or >= 3 options "
+        "were set before. A csg_density "
         "run is non-trivial when at least one bead lies outside [0,L).")
 
 
@@ -915,7 +928,10 @@ def _bs_judge(chk, sess, res, d):
                     continue
             if o["normalize"] and not m["empty"]:
                 integ = sum(y) * m["interval"]
-                if not _bs_close(integ, 1.0, rel=3e-5 * n):
+                # printed digits: 6 significant per bin; with bins of both
+                # signs (angle scaling of negative angles) the sum cancels
+                tol_i = 1e-5 * sum(abs(v) for v in y) * m["interval"] + 3e-5
+                if abs(integ - 1.0) > tol_i:
                     wit["integral"] = integ
                     chk.violation(pfx + "normalisation", wit,
                                   "normalised histogram integrates to %r" %
@@ -1032,9 +1048,16 @@ def run(chk):
         "Normalize: 'integral one' is judged for non-negative bin contents; "
         "with negative contents only the ratios are judged (the code "
         "normalises the integral of |y|); an empty histogram is not judged",
-        "legacy periodic mode: only conservation (sum minus the duplicated "
-        "end bin) and memory safety are judged, the statement says nothing "
-        "about where wrapped values go",
+        "legacy periodic mode, library harness: only conservation (sum "
+        "minus the duplicated end bin) and memory safety are judged; the "
+        "csg_boltzmann session family judges the position of wrapped values "
+        "with a period of n-1 bins (the two end bins are one point) under "
+        "its own key boltzmann-session/periodic-wrap-outside-range",
+        "csg_boltzmann sessions: hist/tab outputs are only requested in "
+        "states with a range of positive length and n >= 5; tab outputs "
+        "only for non-negative distributions; smoothing stays 0; outputs "
+        "with values in the edge band, empty or with singular scaled bins "
+        "are judged for range/weight only",
         "bond/angle scalings: bins whose r or sin is within the code's "
         "singularity threshold are don't-care",
         "csg_density: orthorhombic boxes, coordinates with the 3 printed "
